@@ -11,8 +11,7 @@ open UBidi UBidi.Spec BidiClass
 /-! ### resolving one sequence -/
 
 /-- W1–W7, N0, N1–N2 on the types of one sequence -/
-def resolveCore (sos eos e : BidiClass) (ts0 : List BidiClass) (bs : List (Option Bracket)) : List BidiClass :=
-  let origNSM := ts0.map (· == NSM)
+def resolveCore (sos eos e : BidiClass) (ts0 : List BidiClass) (origNSM : List Bool) (bs : List (Option Bracket)) : List BidiClass :=
   let ts1 := weak sos ts0
   let ts2 := (bracketPairs ts1 bs).foldl (n0One sos e origNSM) ts1
   n12 sos eos e ts2
@@ -28,7 +27,8 @@ def resolveAt (paraLvl : Nat) (ks : List K) (pos : List Nat) : List (Nat × Bidi
       if isIsoInit lastK.cls then paraLvl
       else if last + 1 < ks.length then (ks.getD (last + 1) default).level else paraLvl
     pos.zip (resolveCore (dirOfLevel (max lvl before)) (dirOfLevel (max lastK.level after)) (dirOfLevel lvl)
-      (pos.map (fun p => (ks.getD p default).ty)) (pos.map (fun p => (ks.getD p default).brk)))
+      (pos.map (fun p => (ks.getD p default).ty)) (pos.map (fun p => (ks.getD p default).cls == NSM))
+      (pos.map (fun p => (ks.getD p default).brk)))
   | _, _ => []
 
 theorem resolveSequence_eq (paraLvl : Nat) (ks : List K) (seq : List (Nat × Nat)) :
@@ -53,12 +53,14 @@ theorem resolveAt_sig (pl : Nat) (ksA ksS : List K) (a m : Nat) (ha : 0 < a) (hl
     | some last =>
       have hfa : first ≠ a := by intro e; apply hfirst; rw [hh, e]
       simp only [Option.map_some]
-      rw [List.map_map, List.map_map]
+      rw [List.map_map, List.map_map, List.map_map]
       have e1 : ((fun p => (ksA.getD p default).ty) ∘ sig a m) = fun p => (ksS.getD p default).ty := by
         funext p; show (ksA.getD (sig a m p) default).ty = _; rw [hget]
+      have e1' : ((fun p => (ksA.getD p default).cls == NSM) ∘ sig a m) = fun p => (ksS.getD p default).cls == NSM := by
+        funext p; show ((ksA.getD (sig a m p) default).cls == NSM) = _; rw [hget]
       have e2 : ((fun p => (ksA.getD p default).brk) ∘ sig a m) = fun p => (ksS.getD p default).brk := by
         funext p; show (ksA.getD (sig a m p) default).brk = _; rw [hget]
-      rw [e1, e2, hget first, hget last]
+      rw [e1, e1', e2, hget first, hget last]
       have e3 : (if (sig a m first == 0) = true then pl else (ksA.getD (sig a m first - 1) default).level) =
           (if (first == 0) = true then pl else (ksS.getD (first - 1) default).level) := by
         by_cases h0 : first = 0
